@@ -4,6 +4,8 @@ import Qryn.Prom.Select
 import Qryn.Prof.Selector
 import Qryn.Prom.Stepped
 import Qryn.Prom.Downsample
+import Qryn.Prom.Labels
+import Qryn.Read.SeriesOrder
 /-! Line protocol for C17.
     `c17cursor <samples> <ops>` — samples `ts:v,ts:v,…` (`-` = empty slice), ops `n` (Next), `a` (At),
     `s<t>` (Seek t) comma separated; answer: outputs in call order, `T`/`F`/`ts:v`/`!` (fault), comma separated.
@@ -12,10 +14,29 @@ import Qryn.Prom.Downsample
     `fp=ts:v|ts:v;fp=…` (`-` = no series, `!` = fault).
     `c17select <rows> <keys>` — the same followed by `ReshuffleSeries`; keys `fp:k,fp:k,…` give every fingerprint
     the (numeric) identity of its label set.
-    `c17fpsql <table> <hex fromDate> <type> <matchers>` — matchers `eq|ne|re|nre:<hex name>:<hex value>` comma
-    separated; answer: hex of the text of the `fp_sel` sub-query, or `unsupported`.
+    `c17fpsql <table> <hex fromDate> <type> <matchers>` — matchers `eq|ne|re|nre:<hex name>:<hex value>[:e]` comma
+    separated (`-` = none), `:e` on a regular-expression matcher = the Go side's regular expression matches the empty
+    string (the regular-expression engine stays outside the model); answer: hex of the text of the `fp_sel` sub-query,
+    or `unsupported`.
+    `c17fpeval <hex fromDate> <type> <matchers> <rows> <matches>` — meaning of the `fp_sel` sub-query (`Prom.FpQuery.eval`,
+    64-bit shift) over `time_series_gin` rows `date~key~val~fp~type` (hex strings, decimal fp/type; `_` = no rows);
+    `matches` = the `(pattern, value)` pairs `hexpat~hexval` on which ClickHouse `match` is true (`_` = none); answer:
+    the selected fingerprints ascending, `-` = none.
+    `c17lblsql names|values|series <table> <hex fromDate> <hex toDate> <type> <limit> <hex name|-> <selectors>` — the statement of
+    `/api/v1/labels`, `/api/v1/label/<name>/values`, `/api/v1/series`; selectors = `match[]` entries separated by `;`, each a
+    comma list of matchers as for `c17fpsql`; `-` = no `match[]`; answer: hex of the whole statement, or `unsupported`.
+    `c17lbleval names|values|series <hex fromDate> <hex toDate> <type> <limit> <hex name|-> <selectors> <idx rows> <ts rows> <matches>` —
+    the meaning of that statement (`Prom.Labels.*Eval` over `FpUnion.eval`, 64-bit shift): index rows as for `c17fpeval`,
+    `time_series` rows `date~fp~labels~type` (hex date / labels); answer: the hex strings returned, in order, comma separated
+    (`-` = none).
+    `c17hints <qstart> <qend> <step> <lookback> <range> <off> <func|->` — `Stepped.engineHints`: `<start> <end> <step> <range> <func|->`.
+    `c17route <start> <end> <step> <range> <func|->` — `Stepped.usesRaw`: `raw` or `down`; then the class of the function:
+    `instant` / `range` / `other`.
+    `c17order <label sets>` — label sets separated by `;`, each `hexname=hexvalue,…` in name order (`_` = no label); answer: the
+    same sets in the order the final `sort.Slice` of `Select` gives them (`Read.SeriesOrder.sortSeries`).
     `c17scan <fromNs> <toNs>` — hex of the two bounds of the raw-sample scan as rendered.
-    `c17profsql <table> <hex fromDate> <hex toDate> <selectors>` — selectors `eq|ne|re|nre:<hex name>:<hex value>`;
+    `c17profsql <table> <hex fromDate> <hex toDate> <selectors>` — selectors `eq|ne|re|nre:<hex name>:<hex value>[:e]`
+    (`:e` = Go's regexp finds the anchored pattern in the empty string);
     answer: hex of the text of the Pyroscope selector query, or `unsupported`.
     `c17step <start> <end> <step> <range> <func|-> <rows>` — rows of the raw scan (`fp:val:ts,…`, ordered by
     fingerprint and time); answer: what `Select` hands out after `processHints` and the row loop, `fp=ts:v|…;…`.
@@ -83,41 +104,157 @@ def assembleOp (rows : String) : Option String := do
   | none => some "!"
   | some ss => some (if ss.isEmpty then "-" else ";".intercalate (ss.map showSeries))
 
-def parseMatcher (s : String) : Option Qryn.Prom.Matcher :=
-  match s.splitOn ":" with
+/-- a matcher and whether its regular expression matches the empty string (`:e`) -/
+def parseMatcher (s : String) : Option (Qryn.Prom.Matcher × Bool) :=
+  let parts := s.splitOn ":"
+  let (parts, e) := match parts with
+    | [t, n, v, "e"] => ([t, n, v], true)
+    | p => (p, false)
+  match parts with
   | [t, n, v] =>
     let ty : Option Qryn.Prom.MatchType :=
       if t = "eq" then some .eq else if t = "ne" then some .ne else if t = "re" then some .re
       else if t = "nre" then some .nre else none
     match ty, Qryn.ofHex n, Qryn.ofHex v with
-    | some ty, some n, some v => some ⟨n, ty, v⟩
+    | some ty, some n, some v => some (⟨n, ty, v⟩, e)
     | _, _, _ => none
   | _ => none
+
+/-- the Go side's regular-expression engine as far as the planner consults it: "does the pattern match the empty string" -/
+def fullOf (ms : List (Qryn.Prom.Matcher × Bool)) : Qryn.Bytes → Qryn.Bytes → Bool :=
+  let pats := (ms.filter (·.2)).map (·.1.val)
+  fun p s => s.isEmpty && pats.contains p
 
 def fpsql (table date tp ms : String) : Option String := do
   let d ← Qryn.ofHex date
   let tp ← tp.toInt?
   let ms ← allSome ((parseList ms).map parseMatcher)
-  match Qryn.Prom.fingerprintsQuery table d tp ms with
+  match Qryn.Prom.fingerprintsQuery (fullOf ms) table d tp (ms.map (·.1)) with
   | none => some "unsupported"
   | some q => some (Qryn.hexOut q.render)
 
-def parseSelector (s : String) : Option Qryn.Prof.Selector :=
-  match s.splitOn ":" with
+def splitList (sep : String) (s : String) : List String := if s = "_" then [] else s.splitOn sep
+
+def parseIdxRow (s : String) : Option Qryn.Prom.IdxRow :=
+  match s.splitOn "~" with
+  | [d, k, v, fp, tp] => do
+    let d ← Qryn.ofHex d
+    let k ← Qryn.ofHex k
+    let v ← Qryn.ofHex v
+    let fp ← fp.toNat?
+    let tp ← tp.toInt?
+    some ⟨d, k, v, fp, tp⟩
+  | _ => none
+
+def parsePairs (tbl : String) : Option (List (Qryn.Bytes × Qryn.Bytes)) :=
+  allSome ((splitList "," tbl).map (fun p => match p.splitOn "~" with
+    | [a, b] => do
+      let a ← Qryn.ofHex a
+      let b ← Qryn.ofHex b
+      some (a, b)
+    | _ => none))
+
+def fpEval (date tp ms rows tbl : String) : Option String := do
+  let d ← Qryn.ofHex date
+  let tp ← tp.toInt?
+  let ms ← allSome ((parseList ms).map parseMatcher)
+  let rows ← allSome ((splitList "," rows).map parseIdxRow)
+  let tbl ← parsePairs tbl
+  match Qryn.Prom.fingerprintsQuery (fullOf ms) "time_series_gin" d tp (ms.map (·.1)) with
+  | none => some "unsupported"
+  | some q =>
+    let fps := (q.eval (fun pat v => tbl.contains (pat, v)) 64 rows).mergeSort (fun a b => decide (a ≤ b))
+    some (if fps.isEmpty then "-" else ",".intercalate (fps.map toString))
+
+/-! ### labels / label values / series -/
+def parseSels (s : String) : Option (Option (List (List (Qryn.Prom.Matcher × Bool)))) :=
+  if s = "-" then some none
+  else (allSome ((s.splitOn ";").map (fun sel => allSome ((parseList sel).map parseMatcher)))).map some
+
+def unionOf (table : String) (d : Qryn.Bytes) (tp : Int) (sels : Option (List (List (Qryn.Prom.Matcher × Bool)))) :
+    Option (Option Qryn.Prom.Labels.FpUnion) :=
+  match sels with
+  | none => some none
+  | some ss =>
+    (Qryn.Prom.Labels.fpUnion (fullOf ss.flatten) table d tp (ss.map (·.map (·.1)))).map some
+
+def lblSql (kind table d1 d2 tp limit name sels : String) : Option String := do
+  let d1 ← Qryn.ofHex d1
+  let d2 ← Qryn.ofHex d2
+  let tp ← tp.toInt?
+  let limit ← limit.toNat?
+  let name ← if name = "-" then some [] else Qryn.ofHex name
+  let sels ← parseSels sels
+  let gin := "time_series_gin"
+  let w : Qryn.Prom.Labels.Win := ⟨d1, d2, tp⟩
+  match unionOf gin d1 tp sels with
+  | none => some "unsupported"
+  | some u =>
+    if kind = "names" then some (Qryn.hexOut (Qryn.Prom.Labels.namesRender table w u))
+    else if kind = "values" then some (Qryn.hexOut (Qryn.Prom.Labels.valuesRender table w limit name u))
+    else if kind = "series" then
+      match u with
+      | some u => some (Qryn.hexOut (Qryn.Prom.Labels.seriesRender table w limit u))
+      | none => some "unsupported"
+    else none
+
+def parseTsRow (s : String) : Option Qryn.Prom.Labels.TsRow :=
+  match s.splitOn "~" with
+  | [d, fp, l, tp] => do
+    let d ← Qryn.ofHex d
+    let fp ← fp.toNat?
+    let l ← Qryn.ofHex l
+    let tp ← tp.toInt?
+    some ⟨d, fp, l, tp⟩
+  | _ => none
+
+def lblEval (kind d1 d2 tp limit name sels rows ts tbl : String) : Option String := do
+  let d1 ← Qryn.ofHex d1
+  let d2 ← Qryn.ofHex d2
+  let tp ← tp.toInt?
+  let limit ← limit.toNat?
+  let name ← if name = "-" then some [] else Qryn.ofHex name
+  let sels ← parseSels sels
+  let rows ← allSome ((splitList "," rows).map parseIdxRow)
+  let ts ← allSome ((splitList "," ts).map parseTsRow)
+  let tbl ← parsePairs tbl
+  let w : Qryn.Prom.Labels.Win := ⟨d1, d2, tp⟩
+  match unionOf "time_series_gin" d1 tp sels with
+  | none => some "unsupported"
+  | some u =>
+    let fps := u.map (fun u => u.eval (fun pat v => tbl.contains (pat, v)) 64 rows)
+    let out ←
+      if kind = "names" then some (Qryn.Prom.Labels.namesEval w fps rows)
+      else if kind = "values" then some (Qryn.Prom.Labels.valuesEval w limit name fps rows)
+      else if kind = "series" then fps.map (fun f => Qryn.Prom.Labels.seriesEval w limit f ts)
+      else none
+    some (if out.isEmpty then "-" else ",".intercalate (out.map Qryn.hexOut))
+
+def parseSelector (s : String) : Option (Qryn.Prof.Selector × Bool) :=
+  let parts := s.splitOn ":"
+  let (parts, e) := match parts with
+    | [t, n, v, "e"] => ([t, n, v], true)
+    | p => (p, false)
+  match parts with
   | [t, n, v] =>
     let op : Option Qryn.Prof.Op :=
       if t = "eq" then some .eq else if t = "ne" then some .ne else if t = "re" then some .re
       else if t = "nre" then some .nre else none
     match op, Qryn.ofHex n, Qryn.ofHex v with
-    | some op, some n, some v => some ⟨n, op, v⟩
+    | some op, some n, some v => some (⟨n, op, v⟩, e)
     | _, _, _ => none
   | _ => none
+
+/-- Go's `regexp` as far as `acceptsEmpty` consults it: "is the (anchored) pattern found in the empty string" -/
+def greOf (sels : List (Qryn.Prof.Selector × Bool)) : Qryn.Bytes → Qryn.Bytes → Bool :=
+  let pats := (sels.filter (·.2)).map (fun s => Qryn.Prof.selVal s.1)
+  fun p s => s.isEmpty && pats.contains p
 
 def profsql (table d1 d2 sels : String) : Option String := do
   let d1 ← Qryn.ofHex d1
   let d2 ← Qryn.ofHex d2
   let sels ← allSome ((parseList sels).map parseSelector)
-  match Qryn.Prof.plan table d1 d2 sels with
+  match Qryn.Prof.plan (greOf sels) table d1 d2 (sels.map (·.1)) with
   | none => some "unsupported"
   | some q => some (Qryn.hexOut q.render)
 
@@ -181,8 +318,6 @@ def downOp (a b c d f rows : String) : Option String := do
     let out := Qryn.Prom.Downsample.mapResult h.func out
     some (if out.isEmpty then "-" else showDSeries out)
 
-def splitList (sep : String) (s : String) : List String := if s = "_" then [] else s.splitOn sep
-
 def parsePRow (s : String) : Option Qryn.Prof.PRow :=
   match s.splitOn "~" with
   | [d, k, v, t, sv, stu, fp] => do
@@ -212,7 +347,7 @@ def profEval (d1 d2 sels rows tbl : String) : Option String := do
       let b ← Qryn.ofHex b
       some (a, b)
     | _ => none))
-  match Qryn.Prof.plan "profiles_series_gin" d1 d2 sels with
+  match Qryn.Prof.plan (greOf sels) "profiles_series_gin" d1 d2 (sels.map (·.1)) with
   | none => some "unsupported"
   | some q =>
     let fps := (q.eval (fun pat v => tbl.contains (pat, v)) 64 rows).mergeSort (fun a b => decide (a ≤ b))
@@ -227,6 +362,29 @@ def handle : List String → Option String
   | ["c17stepsql", a, b, c, d, f] => stepSql a b c d f
   | ["c17select", rows, keys] => selectOp rows keys
   | ["c17profsql", table, d1, d2, sels] => profsql table d1 d2 sels
+  | ["c17order", sets] => do
+    let parseSet (x : String) : Option Qryn.Read.SeriesOrder.Labels :=
+      if x = "_" then some [] else
+      allSome ((x.splitOn ",").map (fun kv => match kv.splitOn "=" with
+        | [a, b] => do
+          let a ← Qryn.ofHex a
+          let b ← Qryn.ofHex b
+          some (a, b)
+        | _ => none))
+    let showSet (l : Qryn.Read.SeriesOrder.Labels) : String :=
+      if l.isEmpty then "_" else ",".intercalate (l.map (fun kv => Qryn.hexOut kv.1 ++ "=" ++ Qryn.hexOut kv.2))
+    let ls ← allSome ((sets.splitOn ";").map parseSet)
+    some (";".intercalate ((Qryn.Read.SeriesOrder.sortSeries ls).map showSet))
+  | ["c17fpeval", date, tp, ms, rows, tbl] => fpEval date tp ms rows tbl
+  | ["c17hints", a, b, c, lb, rg, off, f] => do
+    let q : Qryn.Prom.Stepped.Query := ⟨← a.toInt?, ← b.toInt?, ← c.toInt?⟩
+    let h := Qryn.Prom.Stepped.engineHints q (← lb.toInt?) (← rg.toInt?) (← off.toInt?) (if f = "-" then "" else f)
+    some s!"{h.start} {h.stop} {h.step} {h.range} {if h.func = "" then "-" else h.func}"
+  | ["c17route", a, b, c, d, f] => (hintsOf a b c d f).map (fun h =>
+      (if Qryn.Prom.Stepped.usesRaw h then "raw" else "down") ++ " " ++
+      (match Qryn.Prom.Stepped.classOf h.func with | .instant => "instant" | .range => "range" | .other => "other"))
+  | ["c17lblsql", kind, table, d1, d2, tp, limit, name, sels] => lblSql kind table d1 d2 tp limit name sels
+  | ["c17lbleval", kind, d1, d2, tp, limit, name, sels, rows, ts, tbl] => lblEval kind d1 d2 tp limit name sels rows ts tbl
   | ["c17fpsql", table, date, tp, ms] => fpsql table date tp ms
   | ["c17scan", a, b] => match a.toInt?, b.toInt? with
     | some a, some b => some (Qryn.hexOut (Qryn.Prom.renderScan a b))
